@@ -1013,7 +1013,7 @@ func (proxy *PgProxy) handleQueryDataPacket(ctx context.Context, packet *PacketH
 	sqlQuery := pendingPacket.(queryPacket).GetSQLQuery()
 
 	sqlOnQuery := postgresql.NewOnQueryObjectFromQuery(sqlQuery)
-	sqlStmt, err := pg_query.Parse(sqlQuery)
+	sqlStmt, err := postgresql.ParseQuery(sqlQuery)
 	if err != nil {
 		logger.WithField(logging.FieldKeyEventCode, logging.EventCodeErrorCodingPostgresqlCantParseColumnsDescription).
 			WithError(err).Errorln("Failed to parse SQL query")
@@ -1084,7 +1084,7 @@ func (proxy *PgProxy) registerPreparedStatement(packet *PacketHandler, preparedS
 	name := preparedStatement.Name()
 	queryText := preparedStatement.QueryString()
 	// This should be always successful since the database filters invalid queries.
-	query, err := pg_query.Parse(queryText)
+	query, err := postgresql.ParseQuery(queryText)
 	if err != nil {
 		logger.WithField(logging.FieldKeyEventCode, logging.EventCodeErrorGeneral).
 			WithError(err).Errorln("Can't parse SQL from Parse packet")
